@@ -20,7 +20,7 @@ types:
     - id: compression_type
       type: u4
       enum: compression
-      doc: The compression algorithm used. 0 means no compression, 1 means Snappy, 2 means Gzip.
+      doc: The compression algorithm used. 0 means no compression, 1 means Gzip, 2 means Snappy, 3 means LZW.
   record:
     doc: |
       recordio record is an "infinite" stream of magic number separated and length encoded byte arrays.
@@ -46,5 +46,6 @@ types:
 enums:
   compression:
     0: none
-    1: snappy
-    2: gzip
+    1: gzip
+    2: snappy
+    3: lzw
